@@ -255,6 +255,15 @@ def cases(run):
             for ns in ([1], [3], [2, 3], [1, 0, 4], [0], [7, 5]):
                 run.count(f"locustags:step={step}")
                 yield f"locustags {G.enc(prefix)} {step} {len(ns)} " + " ".join(map(str, ns))
+    # ---- one call over several collections: sequence names repeat / interleave; list, tuple and one-shot iterators
+    import itertools
+    names = ["chrA", "chrB", "chrC"]
+    for m in (1, 2, 3, 4):
+        for combo in itertools.product(names[:min(m, 3)], repeat=m):
+            for how in (("list", "tuple", "iter", "gen") if m <= 3 else ("list", "iter")):
+                ns = [rng.choice([0, 1, 2, 3]) for _ in combo]
+                run.count(f"headers:{how}")
+                yield f"headers {how} {m} " + " ".join(f"{nm} {n}" for nm, n in zip(combo, ns))
     # ---- whole collections and their genes
     n = 900 if quick else 30000
     for _ in range(n):
